@@ -201,6 +201,7 @@ def run(rep) -> None:
         # the generated code must also RUN where it type-checks: the structured families are decoded and encoded (names that only exist under
         # TYPE_CHECKING, helpers that are annotated but not imported ...)
         c02.structured(rep, d, pkg="runs", prop="C11")
+        c02.structured(rep, d, pkg="runs_literal", prop="C11", literal_enums=True)
         comps, fam = c02.structured_families()
         g = gen.generate(gen.mkdoc(schemas={**comps, **{k: v[0] for k, v in fam.items()}}), d / "structured")
         if not g["exc"] and not g["rejected"]:
